@@ -52,6 +52,10 @@ def unhex(s):
 def run_model(lines, nproc=NPROC):
     """the extracted Coq model; raised stack limit because the extracted list functions are not tail recursive"""
     wrapper = os.path.join(build.VERIF, "harness", "model.sh")
+    logdir = os.environ.get("HV_MODEL_LOG")      # tools/model_coverage.py: keep every request so that it can be replayed on the profiled model
+    if logdir and lines:
+        import uuid
+        with open(os.path.join(logdir, "req-%s.txt" % uuid.uuid4().hex), "w") as fh: fh.write("\n".join(lines) + "\n")
     return [unhex(x) for x in run_sharded(wrapper, lines, nproc=nproc)]
 
 COVDIR = None     # set by the check context: where the instrumented binaries write their coverage counters
